@@ -114,13 +114,33 @@ func c13(tier string) []*explore.Scenario {
 	for _, si := range []int{0, 3, 5, 8, 10, 11} {
 		out = append(out, c13Seq("us", true, si, 1, 2, 1), c13Seq("us", true, si, 0, 2, 1))
 	}
+	// back-to-back deliveries
+	for _, mix := range []string{"uu", "us"} {
+		for _, st := range []bool{false, true} {
+			for _, si := range []int{0, 3, 5, 6, 11} { // body, trailer-ok, ok-status+body+trailer, body+trailer, reset
+				for target := 0; target < 2; target++ {
+					out = append(out, c13SeqT(mix, st, si, target, maxLen, 0, true))
+				}
+				out = append(out, c13SeqT(mix, st, si, 0, 3, 1, true))
+			}
+		}
+	}
 	return out
 }
 
 func c13Seq(mix string, withStats bool, first, firstTarget, maxLen, bound int) *explore.Scenario {
+	return c13SeqT(mix, withStats, first, firstTarget, maxLen, bound, false)
+}
+
+// burst: envelopes are sent back to back, racing with the calls' own processing and teardown.
+func c13SeqT(mix string, withStats bool, first, firstTarget, maxLen, bound int, burst bool) *explore.Scenario {
 	fam := "C13/hostile"
+	mode := "seq"
+	if burst {
+		mode = "burst"
+	}
 	return &explore.Scenario{
-		Name:   fmt.Sprintf("C13/seq/mix=%s/stats=%v/first=%s>%d/len<=%d/d=%d", mix, withStats, c13Shapes[first].name, firstTarget, maxLen, bound),
+		Name:   fmt.Sprintf("C13/%s/mix=%s/stats=%v/first=%s>%d/len<=%d/d=%d", mode, mix, withStats, c13Shapes[first].name, firstTarget, maxLen, bound),
 		Family: fam, Prop: "C13", Bound: bound, MaxExecs: 3000000,
 		Run: func() {
 			w := env.NewWorld()
@@ -200,8 +220,11 @@ func c13Seq(mix string, withStats bool, first, firstTarget, maxLen, bound int) *
 					vsched.Fail(fam+"|harness", "inject: %v", err)
 					return
 				}
-				vsched.Quiesce()
+				if !burst {
+					vsched.Quiesce()
+				}
 			}
+			vsched.Quiesce()
 			// the connection closes
 			d.Pipe.A.Break()
 			d.Pipe.B.Break()
